@@ -21,3 +21,14 @@ func Int63n(n int64) int64 {
 
 // Intn returns a deterministic pseudo-random number in [0, n).
 func Intn(n int) int { return int(Int63n(int64(n))) }
+
+// Read stands in for crypto/rand.Read (random namespace names of the checkpoint package): deterministic bytes.
+func Read(b []byte) (int, error) {
+	for i := 0; i < len(b); i += 8 {
+		v := simrt.Rand64("crypto/rand.Read")
+		for j := 0; j < 8 && i+j < len(b); j++ {
+			b[i+j] = byte(v >> (8 * j))
+		}
+	}
+	return len(b), nil
+}
